@@ -234,6 +234,11 @@ def _drive(ex, clos, L, w, make_args):
         first = VRef(holder, ()) if fn.args[0][1].startswith("&") else holder.v
         ex.cur_pos = i
         ret = ex.exec_fn(fn, [first] + make_args(i, start))
+        if ret is _DIVERGE:
+            # every path of the callback panics at this position (the panic is recorded as an obligation):
+            # no output from here on
+            outs.extend([None] * (L - i))
+            break
         outs.append(ret)
     ex.outputs = outs
     return VOpt(True, VOpaque("out", outs))
@@ -269,16 +274,112 @@ def n_rolling2_apply_idx(ex, callee, args, m):
                                 VTuple([xs[i], ys[i]])])
 
 
+# ---- null-skipping folds over a finite sequence: protocol of iter_traits.rs (C11 sub-harnesses) ----
+def _seq_items(ex, v):
+    v = _deref(ex, v)
+    if isinstance(v, VSeq):
+        return v.items
+    if isinstance(v, VOpaque) and v.tag in ("self", "other"):
+        return ex.series[v.tag]
+    raise ExecError(f"not a sequence: {v!r}")
+
+
+def _valid_const(x, ex=None):
+    if x.nan.is_const:
+        return not x.nan.val
+    if ex is not None:
+        if ex.valid(smt.not_(x.nan)):
+            return True
+        if ex.valid(x.nan):
+            return False
+    raise ExecError("fold over an element whose null flag is symbolic")
+
+
+def n_vapply_n(ex, callee, args, m):
+    seq, clos = args
+    fn = _closure_fn(ex, clos)
+    holder = Cell(clos)
+    n = 0
+    for it in _seq_items(ex, seq):
+        if _valid_const(it, ex):
+            n += 1
+            first = VRef(holder, ()) if fn.args[0][1].startswith("&") else holder.v
+            ex.exec_fn(fn, [first, it])
+    return VInt(n)
+
+
+def n_vfold_n(ex, callee, args, m):
+    seq, init, clos = args
+    fn = _closure_fn(ex, clos)
+    holder = Cell(clos)
+    n, acc = 0, init
+    for it in _seq_items(ex, seq):
+        if _valid_const(it, ex):
+            n += 1
+            first = VRef(holder, ()) if fn.args[0][1].startswith("&") else holder.v
+            acc = ex.exec_fn(fn, [first, acc, it])
+    return VTuple([VInt(n), acc])
+
+
+def n_zip(ex, callee, args, m):
+    a, b = _seq_items(ex, args[0]), _seq_items(ex, args[1])
+    return VSeq([VTuple([x, y]) for x, y in zip(a, b)])
+
+
+def n_for_each(ex, callee, args, m):
+    seq, clos = args
+    fn = _closure_fn(ex, clos)
+    holder = Cell(clos)
+    for it in _seq_items(ex, seq):
+        first = VRef(holder, ()) if fn.args[0][1].startswith("&") else holder.v
+        ex.exec_fn(fn, [first, it])
+    return VUnit()
+
+
+def n_range_map(ex, callee, args, m):
+    rng, clos = args
+    fn = _closure_fn(ex, clos)
+    holder = Cell(clos)
+    lim = rng.end + 1 if rng.inclusive else rng.end
+    items = []
+    for j in range(rng.cur, lim):
+        first = VRef(holder, ()) if fn.args[0][1].startswith("&") else holder.v
+        items.append(ex.exec_fn(fn, [first, VInt(j)]))
+    return VSeq(items)
+
+
+def n_add(ex, callee, args, m):
+    return f_add(_deref(ex, args[0]), _deref(ex, args[1]))
+
+
+def n_nan(ex, callee, args, m):
+    return VF.NaN()
+
+
 NATIVES = [
-    (N(r"^<T2? as tea_core::prelude::IsNone>::not_none$"), n_not_none),
-    (N(r"^<T2? as tea_core::prelude::IsNone>::is_none$"), n_is_none),
-    (N(r"^<T2? as tea_core::prelude::IsNone>::unwrap$"), n_unwrap),
-    (N(r"^<T2? as tea_core::prelude::IsNone>::to_opt$"), n_to_opt),
-    (N(r"^<(?:<T2? as tea_core::prelude::IsNone>::Inner|T2?|usize|f64|i32) as tea_core::prelude::Number>::f64$"), n_f64),
-    (N(r"^<f64 as tea_core::prelude::Cast<U>>::cast$"), n_cast_f64_u),
-    (N(r"^<(?:<T as tea_core::prelude::IsNone>::Inner|T) as tea_core::prelude::Zero>::zero$"), n_zero),
-    (N(r"^<(?:<T as tea_core::prelude::IsNone>::Inner|T) as AddAssign>::add_assign$"), n_add_assign),
-    (N(r"^<(?:<T as tea_core::prelude::IsNone>::Inner|T) as SubAssign>::sub_assign$"), n_sub_assign),
+    (N(r"^<Self as (?:tea_core::prelude::)?IterBasic>::vapply_n::<"), n_vapply_n),
+    (N(r"^<Map<std::ops::RangeInclusive<usize>, \{closure@[^}]*\}> as (?:tea_core::prelude::)?IterBasic>::vapply_n::<"), n_vapply_n),
+    (N(r"^<Self as (?:tea_core::prelude::)?IterBasic>::vfold_n::<"), n_vfold_n),
+    (N(r"^<Self as IntoIterator>::into_iter$"), n_into_iter),
+    (N(r"^<<Self as IntoIterator>::IntoIter as Iterator>::zip::<V2>$"), n_zip),
+    (N(r"^<Zip<.*> as Iterator>::for_each::<"), n_for_each),
+    (N(r"^<std::ops::RangeInclusive<usize> as Iterator>::map::<f64, "), n_range_map),
+    (N(r"^<usize as (?:tea_core::prelude|tea_dtype)::Number>::max_with$"), n_max),
+    (N(r"^<f64 as IntoCast>::into_cast::<T>$"), n_identity),
+    (N(r"^<<T as (?:tea_core::prelude|tea_dtype)::IsNone>::Cast<f64> as (?:tea_core::prelude|tea_dtype)::IsNone>::none$"), n_nan),
+    (N(r"^<f64 as (?:tea_core::prelude|tea_dtype)::IsNone>::not_none$"), n_not_none),
+    (N(r"^<f64 as (?:tea_core::prelude|tea_dtype)::Cast<O>>::cast$"), n_identity),
+    (N(r"^<<T as (?:tea_core::prelude|tea_dtype)::IsNone>::Inner as num_traits::Zero>::zero$"), n_zero),
+    (N(r"^<<T as (?:tea_core::prelude|tea_dtype)::IsNone>::Inner as Add>::add$"), n_add),
+    (N(r"^<T2? as (?:tea_core::prelude|tea_dtype)::IsNone>::not_none$"), n_not_none),
+    (N(r"^<T2? as (?:tea_core::prelude|tea_dtype)::IsNone>::is_none$"), n_is_none),
+    (N(r"^<T2? as (?:tea_core::prelude|tea_dtype)::IsNone>::unwrap$"), n_unwrap),
+    (N(r"^<T2? as (?:tea_core::prelude|tea_dtype)::IsNone>::to_opt$"), n_to_opt),
+    (N(r"^<(?:<T2? as (?:tea_core::prelude|tea_dtype)::IsNone>::Inner|T2?|usize|f64|i32) as (?:tea_core::prelude|tea_dtype)::Number>::f64$"), n_f64),
+    (N(r"^<f64 as (?:tea_core::prelude|tea_dtype)::Cast<U>>::cast$"), n_cast_f64_u),
+    (N(r"^<(?:<T as (?:tea_core::prelude|tea_dtype)::IsNone>::Inner|T) as (?:tea_core::prelude|tea_dtype)::Zero>::zero$"), n_zero),
+    (N(r"^<(?:<T as (?:tea_core::prelude|tea_dtype)::IsNone>::Inner|T) as AddAssign>::add_assign$"), n_add_assign),
+    (N(r"^<(?:<T as (?:tea_core::prelude|tea_dtype)::IsNone>::Inner|T) as SubAssign>::sub_assign$"), n_sub_assign),
     (N(r"^Option::<(?:usize|f64)>::unwrap_or$"), n_opt_unwrap_or),
     (N(r"^Option::<[^>]*(?:<[^>]*>[^>]*)*>::unwrap$"), n_opt_unwrap),
     (N(r"^Option::<.*>::is_some$"), n_opt_is_some),
